@@ -41,7 +41,7 @@ from . import common
 ID = "C20"
 LEVEL = "exploration"
 TIERS = {
-    "quick": {"runs": 140, "wall": 60, "run_timeout": 200, "shrink_s": 60},
+    "quick": {"runs": 140, "wall": 60, "run_timeout": 240, "shrink_s": 60},
     "thorough": {"runs": 12000, "wall": 1100, "run_timeout": 400, "shrink_s": 180},
 }
 RULE = ("case = 1..3 generated input files (csv with delimiter , ; or tab / rttm / a directory of files; 2..3 annotators, <= 6 units "
